@@ -62,7 +62,7 @@ func c03ProbeCluster() *ClusterInfo {
 // HarnessC03ProbeLoops: the REAL probe goroutines (ticker loop + probing loop of startGatewayHealthCheck, and whatever
 // they call) run against the real syncEndpoints / EnsureGatewayHealthCheck: an endpoint is served and probed (its
 // probe answers arbitrary: healthy, unhealthy, flapping), then the latest server list marks it disabled, or removes it,
-// or the whole cluster is stopped - and time passes (timers and tickers fire). From that moment on no probe is sent to
+// or the whole cluster is stopped - and time passes (timers and tickers fire). Once a probe that was already under way has completed, no further probe is sent to
 // it; re-enabling it starts probing again; an endpoint that stays enabled keeps being probed.
 // verif:bounds one endpoint; 0..2 rounds of ticks before the change (each probe answer symbolic), then {disable, remove, stop cluster}, then 3 timer firings; then (disable case) re-enable + 2 firings. Goroutines: run-to-block, round-robin, timers fire only at the pump points (deterministic schedule, symbolic data)
 func HarnessC03ProbeLoops() {
@@ -100,6 +100,9 @@ func HarnessC03ProbeLoops() {
 	case 2:
 		c.Stop()
 	}
+	// a probe that was already triggered when the change arrived may still complete (the loops are stopped by cancelling
+	// their context, not by interrupting a running probe): let in-flight work drain, then watch
+	vpump(0)
 	c03ProbeMu.Lock()
 	ghostC03Watch = true
 	c03ProbeMu.Unlock()
